@@ -1,15 +1,20 @@
 /-
-  C02 — Assembler accepts exactly the well-formed programs.   (partial: the decision points, not their composition)
+  C02 — Assembler accepts exactly the well-formed programs.   (partial: decision points + acceptance ⇒ well-formed; the converse is checked)
   Proved, for every state and statement, each decision of the two passes in the form the property states it:
   the location counter advances exactly while the block stays at or below xFE00 and the error names the condition
   (I/O page vs. wrap); labels and statements outside a block, `.end` without `.orig`, nested `.orig`, unclosed `.orig`
   give the corresponding structure errors; a label is rejected exactly when it is already bound to another address
   (C01.addLabel_spec / addLabel_conflict); a label operand is accepted exactly when the label is defined, not external
   and the offset fits (C01.label_operand); external labels in PC-relative operands give OffsetExternal.
-  Not proved: the iff for whole programs (composition over all statements, overlap check between blocks); this is what
-  the correspondence check decides with an independent well-formedness scan over programs with injected faults.
+  Whole programs, one direction (`accepted_structure`, `accepted_operands`, with C01.assembled_image_any): if assembling
+  succeeds then the program is a sequence of closed non-nested blocks, everything outside them is `.external`, no label sits
+  outside a block, every label operand converts (defined, not external, fits), and the non-empty blocks start at distinct
+  addresses (C01: the overlap check makes every inserted block's start fresh).
+  Not proved: the converse (every well-formed program is accepted) and pairwise disjointness of all blocks as one statement;
+  these are what the correspondence check decides with an independent well-formedness scan over programs with injected faults.
 -/
 import Lc3V.Lemmas.C01Core
+import Lc3V.Props.C01
 set_option linter.unusedSimpArgs false
 namespace Lc3V.C02
 open Lc3V
@@ -113,8 +118,44 @@ theorem undefined_operand (n : Nat) (l : Label) (pc : W) (t : SymTab)
   unfold replacePcOffset
   simp [hl]
 
+/-! ### whole programs: what acceptance implies -/
+
+/-- **an accepted program is well-formed (structure)**: if `assemble` succeeds, the program is a sequence of closed,
+    non-nested `.orig … .end` blocks whose bodies contain neither `.orig` nor `.end`; every statement outside the blocks is
+    an `.external` declaration; and no statement outside a block — nor an `.orig` itself — carries a label (so every label
+    lies inside a block) -/
+theorem accepted_structure (stmts : List Stmt) (src : Option (List Char)) (obj : ObjFile) (h : assemble stmts src = .ok obj) :
+    ∃ (blks : List Blk) (tail : List Stmt), stmts = blks.flatMap Blk.stmts ++ tail ∧
+      (∀ b ∈ blks, b.WF ∧ b.NoOuterLabels ∧ ∀ s ∈ b.gap, isExternal s.nucleus = true) ∧
+      (∀ s ∈ tail, isExternal s.nucleus = true ∧ s.labels = []) := by
+  have h0 := h
+  unfold assemble at h0
+  cases h1 : pass1 stmts src with
+  | error e => rw [h1] at h0; cases h0
+  | ok t =>
+    obtain ⟨blks, tail, e1, e2, e3⟩ := pass1_structure stmts src t h1
+    subst e1
+    obtain ⟨_, _, rext, _⟩ := C01.assembled_image blks tail src obj (fun b hb => (e2 b hb).1) (fun x hx => (e3 x hx).1) h
+    exact ⟨blks, tail, rfl, fun b hb => ⟨(e2 b hb).1, (e2 b hb).2, rext.1 b hb⟩, fun x hx => ⟨rext.2 x hx, (e3 x hx).2⟩⟩
+
+/-- **an accepted program is well-formed (operands)**: in an accepted program every instruction inside a block converts —
+    i.e. (C01.label_operand) each label operand is defined, not external, and its offset from the following word fits -/
+theorem accepted_operands (blks : List Blk) (tail : List Stmt) (src : Option (List Char)) (obj : ObjFile)
+    (hwf : ∀ b ∈ blks, b.WF) (ht : ∀ s ∈ tail, isOrigEnd s.nucleus = false)
+    (h : assemble (blks.flatMap Blk.stmts ++ tail) src = .ok obj) :
+    ∃ t, pass1 (blks.flatMap Blk.stmts ++ tail) src = .ok t ∧
+      ∀ b ∈ blks, ∀ pre s post i, b.body = pre ++ s :: post → s.nucleus = .instr i →
+        ∃ si, intoSimInstr i (b.a + sizeOf' pre + 1) t = .ok si := by
+  obtain ⟨t, ht1, _, _, r3, _⟩ := C01.assembled_image blks tail src obj hwf ht h
+  refine ⟨t, ht1, fun b hb pre s post i hbody hs => ?_⟩
+  obtain ⟨ws, hws, _⟩ := r3 b hb
+  rw [hbody] at hws
+  obtain ⟨w1, w2, w3, _, h2, _⟩ := C01.body_words_layout t pre s post b.a ws hws
+  obtain ⟨si, hsi, _⟩ := C01.stmt_words_instr t _ s i hs w2 h2
+  exact ⟨si, hsi⟩
+
 def obligations : List Lean.Name :=
-  [``shift_zero, ``shift_ok, ``shift_io, ``shift_wrap, ``shift_keeps_flag, ``labels_outside_block, ``nested_orig,
+  [``accepted_structure, ``accepted_operands, ``shift_zero, ``shift_ok, ``shift_io, ``shift_wrap, ``shift_keeps_flag, ``labels_outside_block, ``nested_orig,
    ``end_without_orig, ``stmt_outside_block, ``unclosed_orig, ``external_operand, ``undefined_operand,
    ``C01.addLabel_spec, ``C01.addLabel_conflict, ``C01.label_operand]
 
